@@ -428,6 +428,10 @@ class DNSIncoming:
                 )
             linked_labels = self._name_cache.get(link_py_int)
             if not linked_labels:
+                if len(seen_pointers) >= MAX_DNS_LABELS:
+                    raise IncomingDecodeError(
+                        f"Maximum dns compression pointers reached while processing pointer at {off} from {self.source}"
+                    )
                 linked_labels = []
                 seen_pointers.add(link_py_int)
                 self._decode_labels_at_offset(link, linked_labels, seen_pointers)
